@@ -331,7 +331,7 @@ def check_conservation(env: Any, s: Any, a: Any, s2: Any, ts: Any) -> List[str]:
 
 
 # ------------------------------------------------------------------------------------------ injection
-def scenario_states(env: Any, state0: Any, agent: int = 0) -> Tuple[Any, List[Dict[str, Any]]]:
+def scenario_states(env: Any, state0: Any, agent: int = 0, load_shelf: Any = None) -> Tuple[Any, List[Dict[str, Any]]]:
     """State injection (optional, analogous to pac_man.corridor_states): short episodes from reset
     hardly ever reach a loaded agent, a delivery or an illegal forward in a new geometry, so this
     builds, from an UNBATCHED consistent state `state0` (e.g. a reset state), one state per
@@ -355,7 +355,7 @@ def scenario_states(env: Any, state0: Any, agent: int = 0) -> Tuple[Any, List[Di
     ax, ay, ad, ac = _agents(s0)
     sx, sy, _ = _shelves(s0)
     others = {(int(ax[k]), int(ay[k])) for k in range(n) if k != agent}
-    j_req = int(np.asarray(s0.request_queue).ravel()[0])
+    j_req = int(np.asarray(s0.request_queue).ravel()[0]) if load_shelf is None else int(load_shelf)
     other_shelves = {(int(sx[j]), int(sy[j])) for j in range(len(sx)) if j != j_req}
     rows: List[Any] = []
     descs: List[Dict[str, Any]] = []
